@@ -202,7 +202,8 @@ def gen_interval(rng, axis, levelmax, kind=None):
 
 # ---- the kind of callable a predicate is handed over as (a selection entry may be any callable)
 
-CALLABLE_KINDS = ["function", "function", "function", "partial", "object", "method"]
+# "int01": the predicate answers with 0/1 integers instead of booleans (criteria are combined by a product, so this is legal)
+CALLABLE_KINDS = ["function", "function", "function", "partial", "object", "method", "int01"]
 
 
 def _apply(f, x):
@@ -220,6 +221,16 @@ class _CallableObject:
         return self.f(x)
 
 
+def _apply01(f, x):
+    import numpy as np
+
+    r = f(x)
+    if hasattr(r, "values"):
+        # an Array of booleans becomes an Array of integers (the answer keeps its container type)
+        return type(r)(values=np.where(np.asarray(r.values), 1, 0))
+    return np.where(np.asarray(r), 1, 0)
+
+
 def as_callable(f, kind):
     """The same predicate as a plain function, a functools.partial, an object with __call__, or a bound method."""
     import functools
@@ -232,4 +243,6 @@ def as_callable(f, kind):
         return _CallableObject(f)
     if kind == "method":
         return _CallableObject(f).method
+    if kind == "int01":
+        return functools.partial(_apply01, f)
     raise ValueError(kind)
